@@ -25,7 +25,7 @@ pub fn convert(
     let mut rules: Vec<Box<dyn VarResolve>> = vec![];
     rules.push(Box::new(ExistingVar::default()));
     rules.push(Box::new(ExistingConst::new_local()));
-    if extra.element != ExprContext::Default {
+    if is_function_result(ctx, &extra, &name) {
         rules.push(Box::new(AssignToFunction::default()));
     } else {
         rules.push(Box::new(VarAsBuiltInFunctionCall::default()));
@@ -45,6 +45,19 @@ pub fn convert(
     } else {
         // repack as unresolved
         Ok(Expression::Variable(name, expression_type))
+    }
+}
+
+/// Checks if a name that belongs to a function should be resolved
+/// as the variable that holds the function's result, or as a call to the function.
+/// On the left side of an assignment it is the result variable.
+/// As an argument it is the result variable inside the function itself
+/// (it can be passed by reference) and a call everywhere else, as in any other expression.
+pub fn is_function_result(ctx: &LinterContext, extra: &ExprContextPos, name: &Name) -> bool {
+    match extra.element {
+        ExprContext::Default => false,
+        ExprContext::Argument => ctx.names.is_in_function(name.as_bare_name()),
+        _ => true,
     }
 }
 
